@@ -4,4 +4,4 @@ CHECK_DEADLOCK FALSE
 CONSTANTS
   Mode = "plain"
   MaxLen = 4
-  Alphabet = {97, 32, 9, 10, 13, 34, 92, 8, 31, 233}
+  Alphabet = {97, 32, 9, 10, 13, 34, 92, 8, 31, 233, 127, 133}
